@@ -73,6 +73,24 @@ CLAIMED["C08"] = dict(
    technique="Coq proof (induction over part lists / stages, axiom-free) + extracted-model correspondence",
    design="DESIGN.md section 4, C08")
 
+CLAIMED["C07"] = dict(
+   text="Axiom-free Coq theorems over an executable model of CouplingTransform.forward/inverse (index buffers from the "
+        "mask, gather, conditioner call, elementwise kernel, scatter), polymorphic in the type of a feature slice so "
+        "that 'bit-for-bit' is literal equality and 2-D and image inputs are the same statement: for EVERY mask the "
+        "two index lists are sorted, duplicate-free, disjoint and cover the features; identity features are returned "
+        "unchanged in both directions; each transformed feature is the kernel of its own input with parameters "
+        "computed from the identity features and the context only; hence output i depends on input i and identity "
+        "inputs only (triangular Jacobian up to the mask permutation); inverse undoes forward for any invertible "
+        "kernel. The model is tied to the code by exact correspondence: index buffers for all masks, outputs / "
+        "inverse / recorded conditioner inputs of the additive and affine couplings with an integer-valued recording "
+        "network (2-D and 4-D, with context), and the parameter layout handed to the piecewise kernels; a bit-exact "
+        "perturbation experiment on all seven coupling classes with residual networks is the failing-input search.",
+   note="Trusted: Coq kernel (no axioms); extraction; harness (recording conditioner). The elementwise kernels "
+        "themselves belong to C01/C02/C09; the unconditional-transform path is modelled but theorems are stated for "
+        "unconditional_transform=None (the property's own exception).",
+   technique="Coq proof (lists/index maps, axiom-free) + extracted-model exact correspondence",
+   design="DESIGN.md section 4, C07")
+
 def main():
     checks = []
     for pid in ALL:
